@@ -404,7 +404,8 @@ def fix_starred_imports(source: str) -> str:
         return
 
     for node, names in starred_import_name_mapping.items():
-        if names:
+        # (where a relative import leads depends on where the file is, which is not known here)
+        if names and not node.level:
             yield node, ast.ImportFrom(
                 module=node.module,
                 names=[ast.alias(name=name, asname=None) for name in sorted(names)],
